@@ -2,6 +2,10 @@ package c13
 
 import (
 	"fmt"
+	"go/ast"
+	"go/parser"
+	"go/token"
+	"path/filepath"
 	"sort"
 	"strings"
 	"testing"
@@ -9,6 +13,7 @@ import (
 
 	"github.com/xelaj/mtproto/telegram/verifh/hx"
 	"github.com/xelaj/mtproto/telegram/verifh/scen"
+	"github.com/xelaj/mtproto/telegram/verifh/tls"
 	"github.com/xelaj/mtproto/telegram/verifh/tlx"
 	"verif/evid"
 )
@@ -60,11 +65,72 @@ func compare(key string) []string {
 		}
 		return nil
 	}
+	if strings.HasPrefix(key, "const:") {
+		// an exported constant of the layer: the identifier a caller writes stands for the constructor of that name
+		var name string
+		var id uint32
+		fmt.Sscanf(strings.ReplaceAll(strings.TrimPrefix(key, "const:"), "=", " "), "%s %x", &name, &id)
+		d, ok := sch.ByID[id]
+		if !ok {
+			return []string{fmt.Sprintf("exported constant %s = %#x is the id of no constructor of the schema", name, id)}
+		}
+		if squash(d.Name) != squash(name) {
+			return []string{fmt.Sprintf("exported constant %s = %#x carries the id of the schema's %s (a caller who names %s sends %s)", name, id, d.Name, name, d.Name)}
+		}
+		return nil
+	}
 	d := sch.ByName[key]
 	if d == nil {
 		return []string{"INFRA: unknown definition " + key}
 	}
 	return tlx.CompareDef(sch, reg, d)
+}
+
+// squash: letters and digits of an identifier, lower case ("storage.fileJpeg", "StorageFileJpeg" -> "storagefilejpeg")
+func squash(s string) string {
+	var b strings.Builder
+	for _, r := range strings.ToLower(s) {
+		if (r >= 'a' && r <= 'z') || (r >= '0' && r <= '9') {
+			b.WriteRune(r)
+		}
+	}
+	return b.String()
+}
+
+// exportedConstants lists "Name=hex" for every typed constant with a hexadecimal value in the generated files of the layer.
+func exportedConstants() ([]string, error) {
+	dir := filepath.Join(tls.RepoDir(), "telegram")
+	files, err := filepath.Glob(filepath.Join(dir, "*_gen.go"))
+	if err != nil || len(files) == 0 {
+		return nil, fmt.Errorf("no generated files under %s (%v)", dir, err)
+	}
+	var out []string
+	fset := token.NewFileSet()
+	for _, f := range files {
+		af, err := parser.ParseFile(fset, f, nil, 0)
+		if err != nil {
+			return nil, err
+		}
+		for _, decl := range af.Decls {
+			gd, ok := decl.(*ast.GenDecl)
+			if !ok || gd.Tok != token.CONST {
+				continue
+			}
+			for _, sp := range gd.Specs {
+				vs := sp.(*ast.ValueSpec)
+				if vs.Type == nil || len(vs.Names) != 1 || len(vs.Values) != 1 {
+					continue
+				}
+				lit, ok := vs.Values[0].(*ast.BasicLit)
+				if !ok || lit.Kind != token.INT || !strings.HasPrefix(lit.Value, "0x") {
+					continue
+				}
+				out = append(out, vs.Names[0].Name+"="+strings.TrimPrefix(lit.Value, "0x"))
+			}
+		}
+	}
+	sort.Strings(out)
+	return out, nil
 }
 
 func TestC13(t *testing.T) {
@@ -138,6 +204,22 @@ func TestC13(t *testing.T) {
 			}
 		}
 		run.Exhaustive("definitions of api_latest.tl (incl. 5 dormant header lines, 3 hand-written wrappers) and wire-used definitions of mtproto.tl", n)
+	})
+	t.Run("exported-constants", func(t *testing.T) {
+		cs, err := exportedConstants()
+		if err != nil {
+			t.Fatalf("INFRA: %v", err)
+		}
+		for _, c := range cs {
+			key := "const:" + c
+			run.Case(true, evid.Hash(key), "exported-constant")
+			if ds := compare(key); len(ds) > 0 {
+				run.Class("disagreements_checked", 1)
+				p := run.ViolationNamed("const-"+strings.SplitN(c, "=", 2)[0], Case{Def: key, Disagreements: ds}, ds[0])
+				t.Errorf("violation (replay %s): %v", p, ds)
+			}
+		}
+		run.Exhaustive("typed constants with constructor ids in telegram/*_gen.go", int64(len(cs)))
 	})
 	t.Run("nothing-extra-registered", func(t *testing.T) {
 		ids := append([]uint32{}, reg.IDs...)
